@@ -132,6 +132,44 @@ Proof.
     + rewrite Y, Y', X, X', Ax, Ay, Bx, By. reflexivity.
 Qed.
 
+(* commutativity on the elements: a + b and b + a represent the same element, whatever branches the
+   two calls take *)
+Theorem jac_add_comm a b :
+  1 + 1 <> 0 -> (jz a <> 0 -> jy a <> 0) -> (jz b <> 0 -> jy b <> 0) ->
+  jeqv (jac_add O a b) (jac_add O b a).
+Proof.
+  intros H2 Hya Hyb.
+  destruct (feq_dec O L (jz a) 0) as [A|A].
+  { rewrite (jac_add_inf_l O a b (is_inf_true a A)).
+    destruct (feq_dec O L (jz b) 0) as [B|B].
+    - rewrite (jac_add_inf_l O b a (is_inf_true b B)). left. split; assumption.
+    - rewrite (jac_add_inf_r O b a (is_inf_false b B) (is_inf_true a A)). apply jeqv_refl. }
+  destruct (feq_dec O L (jz b) 0) as [B|B].
+  { rewrite (jac_add_inf_r O a b (is_inf_false a A) (is_inf_true b B)).
+    rewrite (jac_add_inf_l O b a (is_inf_true b B)). apply jeqv_refl. }
+  destruct (feq_dec O L (aff_x O a) (aff_x O b)) as [Ex|Nx].
+  - pose proof (proj2 (cross_x a b A B) Ex) as Cx. pose proof (proj2 (cross_x b a B A) (eq_sym Ex)) as Cx'.
+    destruct (feq_dec O L (aff_y O a) (aff_y O b)) as [Ey|Ny].
+    + pose proof (proj2 (cross_y a b A B) Ey) as Cy. pose proof (proj2 (cross_y b a B A) (eq_sym Ey)) as Cy'.
+      rewrite (jac_add_same O L a b A B Cx Cy), (jac_add_same O L b a B A Cx' Cy').
+      apply jac_double_respects; [exact H2|exact Hya|]. right. repeat split; assumption.
+    + assert (Cy : jy b * (jz a * (jz a * jz a)) - jy a * (jz b * (jz b * jz b)) <> 0).
+      { intros E. apply Ny. apply (cross_y a b A B). exact E. }
+      assert (Cy' : jy a * (jz b * (jz b * jz b)) - jy b * (jz a * (jz a * jz a)) <> 0).
+      { intros E. apply Ny. symmetry. apply (cross_y b a B A). exact E. }
+      left. split; apply is_inf_zero; apply (jac_add_inverse O L); assumption.
+  - assert (Nx' : aff_x O b <> aff_x O a) by congruence.
+    destruct (jac_add_spec O L a b A B Nx H2) as [Z [X Y]].
+    destruct (jac_add_spec O L b a B A Nx' H2) as [Z' [X' Y']].
+    cbv zeta in *. right.
+    assert (Dab : aff_x O b - aff_x O a <> 0) by (intros E; apply Nx'; apply (sub_eq_0 O L); exact E).
+    assert (Dba : aff_x O a - aff_x O b <> 0) by (intros E; apply Nx; apply (sub_eq_0 O L); exact E).
+    assert (EX : aff_x O (jac_add O a b) = aff_x O (jac_add O b a)).
+    { rewrite X, X'. field. split; assumption. }
+    split; [exact Z|]. split; [exact Z'|]. split; [exact EX|].
+    rewrite Y, Y', <- EX, X. field. split; assumption.
+Qed.
+
 (* ---------------------------------------------------------------- Neg, MakeAffine *)
 
 Theorem jac_neg_respects a a' : jeqv a a' -> jeqv (jac_neg O a) (jac_neg O a').
